@@ -184,4 +184,35 @@ def smbLeg (w : Nat) (a b : Int) : Option Int :=
       let res : Int := if r = 1 then 1 else 0
       if b - r = 1 then -1 else res
 
+/-! ### bn_mxp_sim = bn_mxp_sim_few with n = 2 (src/bn/relic_bn_mxp_sim.c) -/
+
+/-- the table of bn_mxp_sim_few for n = 2: t[0] = 1, t[1] = a (only if b ≠ 0), t[2] = d, t[3] = t[2]·t[1] (only if e ≠ 0);
+    entries that are never built keep the value of a fresh bn (0) -/
+def simTab (M : Mont) (a d : Int) (b e : Nat) : Int × Int × Int × Int :=
+  let t0 := M.conv 1
+  let t1 := if b ≠ 0 then M.conv a else 0
+  let t2 := if e ≠ 0 then M.conv d else 0
+  let t3 := if e ≠ 0 then M.mul t2 t1 else 0
+  (t0, t1, t2, t3)
+
+/-- one squaring per bit, one multiplication by t[parities] when parities ≠ 0 (parities = bit of b | bit of e << 1) -/
+def simLoop (M : Mont) (t1 t2 t3 : Int) (b e : Nat) : Nat → Int → Int
+  | 0, c => c
+  | i + 1, c =>
+    let c := M.sqr c
+    simLoop M t1 t2 t3 b e i
+      (if bit b i then (if bit e i then M.mul c t3 else M.mul c t1) else (if bit e i then M.mul c t2 else c))
+
+/-- bn_mxp_sim(c, a, b, d, e, m): m = 1 → 0; then bn_mod_pre_monty (error for even / non-positive m) — there is NO exit for zero
+    exponents and NO inversion: bn_bits / bn_get_bit read the magnitudes, so the signs of b and e are ignored -/
+def mxpSim (w : Nat) (a b d e m : Int) : Option Int :=
+  if m = 1 then some 0
+  else if m % 2 = 0 ∨ m ≤ 0 then none
+  else
+    let M := Mont.ofMod w m
+    let bN := b.natAbs
+    let eN := e.natAbs
+    let t := simTab M a d bN eN
+    some (M.back (simLoop M t.2.1 t.2.2.1 t.2.2.2 bN eN (max (Rec.bitLen bN) (Rec.bitLen eN)) t.1))
+
 end Relic.Model.NtMxp
